@@ -59,6 +59,31 @@ func VerifH_C15_strict() {
 	vCover("C15.strict.reject-pad", n == 2 && err != nil && in[0] == 0x07)
 }
 
+// The same for longer inputs of a particular shape: two fixed octets that
+// leave the decoder with 0..7 bits of an unfinished code in hand (one pair per
+// count; quick: three of them), followed by any two octets. This is where the
+// end of the input is handled with a code in progress, several codes in the
+// last bits, or padding right after a carried-over code.
+//
+//verif:harness prop=C15 unwind=24 timeout=900 timeoutT=3000
+func VerifH_C15_tail() {
+	// "/g" + 4 bits, "00" + 6 bits, "0/" + 5 bits, "//" + 4 bits (another
+	// value), "0 " (space is 6 bits) ..: the leftovers differ in count and value
+	prefixes := [8][2]byte{{0x62, 0x63}, {0x00, 0x3f}, {0x00, 0x00}, {0x61, 0x8f}, {0x05, 0x07}, {0xf8, 0x7f}, {0xfe, 0x3f}, {0x18, 0xc7}}
+	p := prefixes[vRange(0, vPick(2, 7))]
+	in := append([]byte{p[0], p[1]}, vBytes(2)...)
+	ref, cnt, ok := refHuffDecode(in)
+	dst, err := HuffmanDecode(nil, in)
+	vAssert((err == nil) == ok, "C15.tail.accept")
+	if err == nil {
+		vAssert(len(dst) == cnt, "C15.tail.len")
+		for i := range dst {
+			vAssert(dst[i] == ref[i], "C15.tail.bytes")
+		}
+	}
+	vCover("C15.tail.two-in-the-last-bits", p[0] == 0x62 && err == nil && cnt == 5)
+}
+
 // Decode(Encode(s)) == s, for every s of at most 1 symbol (thorough tier
 // only: the composed table lookups make each query take seconds). The executor case-splits on the code length of each symbol so that
 // every shift amount is a constant on each path.
